@@ -504,6 +504,20 @@ func c12Label(a pipeline.Action) string {
 		return "define:" + x.Name
 	case *c12ExtAct:
 		return x.String()
+	case *pipeline.PatchOp:
+		return "patch:" + x.Path
+	case *pipeline.ImportOp:
+		return "import:" + x.Path
+	case *pipeline.TemplateFileOp:
+		return "templateFile:"
+	case *pipeline.EnvOp:
+		return "env:" + x.Path
+	case *pipeline.ExecOp:
+		return "exec:" + x.Program
+	case *pipeline.ExportOp:
+		return "export:"
+	case *pipeline.Html2DomOp:
+		return "html2Dom:" + x.To
 	}
 	return fmt.Sprintf("?%T", a)
 }
@@ -593,15 +607,21 @@ func c12Engine() pipeline.TemplateEngine {
 }
 
 func c12NewExecutor(rec *c12Rec, data dom.ContainerBuilder) pipeline.Executor {
+	return c12NewExecutorFns(rec, data, refDefaultFns)
+}
+
+// c12NewExecutorFns: an executor of its own — own data, own recording listener, own ext action factories.
+// fns maps an ext function NAME to the behaviour (trace | fail | inc) registered under it for this executor.
+func c12NewExecutorFns(rec *c12Rec, data dom.ContainerBuilder, fns map[string]string) pipeline.Executor {
+	reg := map[string]pipeline.ActionFactory{}
+	for name, behaviour := range fns {
+		reg[name] = &c12Factory{behaviour, rec}
+	}
 	return pipeline.New(
 		pipeline.WithData(data),
 		pipeline.WithListener(rec),
 		pipeline.WithTemplateEngine(&c12TE{inner: c12Engine(), rec: rec}),
-		pipeline.WithExtActions(map[string]pipeline.ActionFactory{
-			"trace": &c12Factory{"trace", rec},
-			"fail":  &c12Factory{"fail", rec},
-			"inc":   &c12Factory{"inc", rec},
-		}))
+		pipeline.WithExtActions(reg))
 }
 
 // ---------------------------------------------------------------- errors → tags (mirror of Err.tag)
@@ -690,10 +710,15 @@ type c12RunRes struct {
 
 // c12Exec executes the given top-level actions, one Execute call each, on one executor.
 func c12Exec(data W, acts []pipeline.Action, wantSnap bool) *c12RunRes {
+	return c12ExecFns(data, acts, wantSnap, refDefaultFns)
+}
+
+// c12ExecFns: as c12Exec, on a fresh executor with the given ext registrations.
+func c12ExecFns(data W, acts []pipeline.Action, wantSnap bool, fns map[string]string) *c12RunRes {
 	run := &c12RunRes{rec: &c12Rec{wantSnap: wantSnap}}
 	run.outcome, run.text = guard(func() {
 		run.data = wireContainer(data)
-		ex := c12NewExecutor(run.rec, run.data)
+		ex := c12NewExecutorFns(run.rec, run.data, fns)
 		for _, a := range acts {
 			run.errs = append(run.errs, ex.Execute(a))
 		}
@@ -803,8 +828,13 @@ func c12FailFast(rec *c12Rec, from, to int, ret error) string {
 	return ""
 }
 
-// c12DeclaredOrder: the OpSpec field order by reflection on the real type (independent of the extractor).
-func c12DeclaredOrder() []string {
+// c12DeclaredOrder: "the fixed declared operation order" — the documented one (c12DocumentedOrder, a literal
+// copy of the OpSpec field list at the pinned commit), NOT read from the OpSpec type under test: an order
+// obtained by reflection would follow any change of the type and the clause could never fail.
+func c12DeclaredOrder() []string { return c12DocumentedOrder }
+
+// c12ReflectedOrder: what reflection on the type under test says (evidence only).
+func c12ReflectedOrder() []string {
 	var out []string
 	for _, f := range reflect.VisibleFields(reflect.TypeOf(pipeline.OpSpec{})) {
 		out = append(out, f.Name)
@@ -813,7 +843,10 @@ func c12DeclaredOrder() []string {
 }
 
 var c12KindField = map[string]string{"set": "Set", "template": "Template", "log": "Log", "abort": "Abort", "ext": "Ext",
-	"forEach": "ForEach", "loop": "Loop", "call": "Call", "define": "Define"}
+	"forEach": "ForEach", "loop": "Loop", "call": "Call", "define": "Define",
+	// operations the program JSON has no form for (the "allops" cases build them directly)
+	"patch": "Patch", "import": "Import", "templateFile": "TemplateFile", "env": "Env", "exec": "Exec", "export": "Export",
+	"html2Dom": "Html2Dom"}
 
 // c12OpsInOrder: the action's operation kinds (first of each kind) in declared order.
 func c12OpsInOrder(a *c12Act) []string {
